@@ -636,3 +636,68 @@ pub fn events_from_node(n: &Node, out: &mut Vec<AEv>) {
         }
     }
 }
+
+// ---- validation issues as printed by Display (used by c17 and c18) ----
+#[derive(Serialize, Clone, PartialEq, Eq, PartialOrd, Ord)]
+pub struct IssueLc {
+    pub path: String,
+    pub uline: i64,
+    pub ucol: i64,
+    pub dline: i64,
+    pub dcol: i64,
+}
+fn num_after(s: &str, key: &str) -> Option<(i64, usize)> {
+    let i = s.find(key)? + key.len();
+    let digits: String = s[i..].chars().take_while(|c| c.is_ascii_digit()).collect();
+    digits.parse().ok().map(|n| (n, i + digits.len()))
+}
+/// `... line L, column C` / `line L column C` at or after `from`
+fn line_col(s: &str) -> Option<(i64, i64)> {
+    let (l, e) = num_after(s, "line ")?;
+    let (c, _) = num_after(&s[e..], "column ")?;
+    Some((l, c))
+}
+/// issues as printed without snippets: `validation error at PATH: MSG at line L, column C`
+pub fn issues_plain(text: &str) -> Vec<IssueLc> {
+    let mut out = vec![];
+    for l in text.lines() {
+        if let Some(rest) = l.strip_prefix("validation error at ") {
+            let Some(ci) = rest.find(": ") else { continue };
+            let path = rest[..ci].to_string();
+            let Some(ai) = rest.rfind(" at line ") else { continue };
+            if let Some((ln, c)) = line_col(&rest[ai..]) { out.push(IssueLc { path, uline: ln, ucol: c, dline: ln, dcol: c }); }
+        }
+    }
+    out
+}
+/// issues as printed with snippets: a headline (or plain fallback line) per issue naming the path and the use site,
+/// optionally followed by "... the anchor at line L column C" for the definition site
+pub fn issues_snippet(text: &str) -> Vec<IssueLc> {
+    let mut out: Vec<IssueLc> = vec![];
+    for l in text.lines() {
+        let t = l.trim_start();
+        if t.starts_with('|') || t.chars().next().map(|c| c.is_ascii_digit()).unwrap_or(false) || t.starts_with("-->") {
+            // window lines; the definition-site sentence is printed inside the gutter
+            if let Some(i) = t.find("from the anchor at ") {
+                if let (Some((ln, c)), Some(last)) = (line_col(&t[i..]), out.last_mut()) { last.dline = ln; last.dcol = c; }
+            }
+            continue;
+        }
+        if t.starts_with("validation error at ") {
+            // no snippet available (reader entry points): the plain form
+            out.extend(issues_plain(t));
+            continue;
+        }
+        if let (Some(vi), Some(fi)) = (t.find("validation error: "), t.rfind(" for `")) {
+            if fi < vi { continue; }
+            let after = &t[fi + 6..];
+            let Some(bi) = after.find('`') else { continue };
+            let path = after[..bi].to_string();
+            // use site: in the headline before the message, or as a suffix of the fallback line
+            let lc = if t.starts_with("error: ") { line_col(&t[..vi]) } else { line_col(&after[bi..]) };
+            if let Some((ln, c)) = lc { out.push(IssueLc { path, uline: ln, ucol: c, dline: ln, dcol: c }); }
+        }
+    }
+    out
+}
+
